@@ -398,6 +398,51 @@ theorem stakes_stay_locked_partial (pre : List (Acct × Int)) (cs : List Call)
       stakeTd (run (genesis pre) cs).td a ≤ lockedOf (run (genesis pre) cs).gov a .tdpos :=
   ⟨(run_staked cs (staked_new pre) hd).ord a, (run_staked cs (staked_new pre) hd).td a⟩
 
+/-- CheckVoteResult touches the token bucket only when it REJECTS the proposal: a proposal that passes keeps every
+stake locked until its trigger runs. -/
+theorem check_vote_releases_only_on_reject (w : World) (pid : Nat) (h : (checkVote w pid).gov ≠ w.gov) :
+    ∃ p, aget w.props pid = some p ∧ p.status = .voting ∧
+      aget (checkVote w pid).props pid = some { p with status := .rejected } := by
+  cases hp : aget w.props pid with
+  | none => exfalso; apply h; simp [checkVote, hp]
+  | some p =>
+    by_cases hs : p.status = .voting
+    · cases hsup : w.gov.supply with
+      | none => exfalso; apply h; simp [checkVote, hp, hs, hsup]
+      | some sup =>
+        by_cases hlt : p.votes < sup * p.pct / 100
+        · refine ⟨p, rfl, hs, ?_⟩
+          simp [checkVote, hp, hs, hsup, hlt, aget_aput]
+        · exfalso; apply h; simp [checkVote, hp, hs, hsup, hlt]
+    · exfalso; apply h; simp [checkVote, hp, hs]
+
+/-- A release (CheckVoteResult rejecting, Trigger executing) lowers the ordinary lock of an account by at most the
+records that account holds on THAT proposal: it never eats what the account has staked on another proposal. -/
+theorem release_bounded_by_own_records (w : World) (pid : Nat) (hn : ∀ e ∈ w.locks, 0 ≤ e.2) (x : Acct) :
+    lockedOf w.gov x .ordinary - recSum pid x w.locks ≤ lockedOf (trigger w pid).gov x .ordinary ∧
+      lockedOf w.gov x .ordinary - recSum pid x w.locks ≤ lockedOf (checkVote w pid).gov x .ordinary := by
+  have h0 := recSum_nonneg pid x hn
+  have hrel : lockedOf w.gov x .ordinary - recSum pid x w.locks ≤ lockedOf (unlockAll w.gov pid w.locks) x .ordinary :=
+    unlockAll_cover pid x w.locks hn w.gov _ (by omega)
+  constructor
+  · unfold trigger
+    split
+    · omega
+    · split
+      · omega
+      · exact hrel
+  · unfold checkVote
+    split
+    · omega
+    · split
+      · omega
+      · split
+        · omega
+        · split
+          · exact hrel
+          · show _ ≤ lockedOf w.gov x .ordinary
+            omega
+
 /-- one disciplined call keeps the books covered, in every state where they are -/
 theorem stakes_stay_locked_step (w : World) (c : Call) (hs : Staked w) (hd : disciplined w c = true) :
     Staked (step w c) :=
